@@ -1212,6 +1212,15 @@ REF_FCN static REF_STATUS ref_part_bin_ugrid_cell(
       ncell_read += section_size;
 
       for (cell = 0; cell < section_size; cell++)
+        for (node = 0; node < node_per; node++)
+          if (c2n[node + size_per * cell] < 0 ||
+              nnode <= c2n[node + size_per * cell]) {
+            printf("cell vertex " REF_GLOB_FMT " of %ld nodes\n",
+                   c2n[node + size_per * cell] + 1, (long)nnode);
+            RSS(REF_INVALID, "cell vertex index out of range");
+          }
+
+      for (cell = 0; cell < section_size; cell++)
         dest[cell] =
             ref_part_implicit(nnode, ref_mpi_n(ref_mpi), c2n[size_per * cell]);
 
